@@ -166,6 +166,18 @@ def body_throw(case):
         labels.add("some_kept")
     if (~mask).any():
         labels.add("some_rejected")
+    # corners of the cube written as integers 0/1 (an integer array is a legitimate way to spell them) give what the
+    # same corners give as floats, in double precision
+    if all(x in (0.0, 1.0) for row in u_rows for x in row):
+        from nuspacesim.simulation.geometry.region_geometry import RegionGeom
+
+        gi = RegionGeom(gc.make_config(cfg))
+        with cut("RegionGeom.throw(integer corner points)"):
+            gi.throw(np.array(u_rows, dtype=np.int64).T.copy())
+        for name in ("losPathLen", "betaTrSubN", "latS", "longS", "event_mask"):
+            a_, b_ = np.asarray(getattr(gi, name)), np.asarray(getattr(g, name))
+            require(a_.dtype == b_.dtype and a_.tobytes() == b_.tobytes(), f"{name} for corner points given as integers ({a_.dtype}: {a_.tolist()}) differs from the same corners given as floats ({b_.dtype}: {b_.tolist()})")
+        labels.add("integer_corners")
     return labels
 
 
@@ -229,6 +241,8 @@ def body_history(case):
     conf = gc.make_config(cfg)
     with cut("RegionGeom()"):
         shared = RegionGeom(conf)
+        # ... and a later-constructed object of another configuration exists before the first throw
+        RegionGeom(gc.make_config(dict(cfg, alt=cfg["alt"] * 2.3 + 1.0, limb_frac=0.61)))
     labels = set()
     sizes = [len(b) for b in hist]
     if len(set(sizes)) < len(sizes):
@@ -237,6 +251,14 @@ def body_history(case):
         u = np.array(rows, dtype=np.float64).T.copy()
         with cut(f"throw #{step} on a reused object"):
             shared.throw(u.copy())
+            if step % 2 == 1 or len(hist) <= 2:
+                # a second object of ANOTHER configuration is constructed and thrown with other numbers between this
+                # object's throw and its queries (state shared between instances: class attributes, module caches)
+                cfg2 = dict(cfg, alt=cfg["alt"] * 1.7 + 3.0, limb_frac=0.37, thmax=min(cfg["thmax"] * 1.3, 1.5))
+                other = RegionGeom(gc.make_config(cfg2))
+                other.throw((u[:, ::-1] * 0.9 + 0.05).copy())
+                gc.snapshot_throw(other, s_list, WITH_INTEGRAL)
+                labels.add("second_object_interleaved")
             a = gc.snapshot_throw(shared, s_list, WITH_INTEGRAL)
         with cut("throw on a fresh object"):
             fresh = RegionGeom(conf)
@@ -262,7 +284,7 @@ dist = st.one_of(st.just(0.0), log_uniform(1e-6, 1e4), log_uniform(1e-3, 1e4), s
 SUBCHECKS = [
     SubCheck(
         "throw",
-        st.fixed_dictionaries({"cfg": gc.geom_config(), "u": gc.points(1, 48)}),
+        st.fixed_dictionaries({"cfg": gc.geom_config(), "u": st.one_of(gc.points(1, 48), gc.points(1, 48), gc.points(1, 48), st.lists(st.lists(st.sampled_from([0.0, 1.0]), min_size=4, max_size=4), min_size=1, max_size=16))}),
         body_throw,
         _nt,
         {"quick": 1500, "thorough": 60000},
